@@ -36,3 +36,4 @@ json.dump({"property":P,"breaks":P,"needs_to_manifest":needs,
   "how":"tools/confirm_seed.sh in the scratch worktree: demo run with and without the patch (PYTHONPATH=<worktree>/src), full pytest run with the patch compared with BASELINE.json stable_pass"},
  "source":"fresh sub-agent given only the property text and its own git worktree"}, open(f"/verif/seeded/{DIR}/meta.json","w"), indent=1)
 PY
+python3 /verif/tools/fix_demo_paths.py
